@@ -27,7 +27,7 @@ from ..layers import layers_of_var, layers_of_value
 from ..astutil import argn, assigned_value
 from . import chain
 from .common import (cfg_of, fkey, conds, has_cond, cond_texts, stmts_of, walk_body, call_tail, call_name, returns_of,
-                     raises_of, raise_type, stmt_of, kwarg, implies_absent)
+                     raises_of, raise_type, stmt_of, kwarg, implies_absent, protected_by, handler_reraises_always)
 
 CORE, ROUTE, APP = 'clastic.middleware.core', 'clastic.route', 'clastic.application'
 
@@ -298,6 +298,22 @@ def check_conflict_map(rep):
     cc = [c for c in walk_body(bi.node) if isinstance(c, ast.Call) and call_name(c) == 'check_middlewares']
     if len(cc) != 1:
         raise AnalysisError('BoundRoute.__init__: expected one check_middlewares call')
+    # the conflict check is also the only place where the url / builtins / resources sources are compared with each other: it
+    # runs on every path of binding, whatever the middleware stack holds, and what it raises reaches the caller of bind()
+    bcfg = cfg_of(bi)
+    cst = stmt_of(bi.mod, cc[0])
+    ok = bcfg.must_pass(bcfg.nodes_of(cst), bcfg.entry, bcfg.exit, normal_only=True)
+    rep.check('R04.a', fkey(bi, 'conflict check on every binding path'), ok,
+              'check_middlewares runs on every normal path of binding' if ok else
+              'a route can be bound without check_middlewares being called (%s): besides the middlewares it is the only place where the '
+              'url / builtins / resources sources are compared with each other, so on that path a URL binding or a resource named like a '
+              'built-in, or like each other, is accepted and silently shadowed' % (cond_texts(conds(bi, cst)) or 'early exit'), bi.mod, cc[0])
+    h = protected_by(bi, cc[0], 'NameError')
+    ok = h is None or handler_reraises_always(bi, h)
+    rep.check('R04.a', fkey(bi, 'conflict error reaches the caller'), ok,
+              'the NameError of the conflict check propagates out of binding' if ok else
+              'the NameError raised by check_middlewares is caught inside BoundRoute.__init__ and not re-raised: conflicting names are '
+              'accepted at construction', bi.mod, h if h is not None else cc[0])
     src_arg = argn(cc[0], cps[1] if len(cps) > 1 else 'args_dict', 1)
     if src_arg is None:
         rep.fail('R04.a', fkey(bi, 'source map'), 'check_middlewares is called without the url / builtins / resources sources', route, cc[0])
